@@ -15,7 +15,7 @@ RULE = ('workchains whose step registers n<=3 (thorough 4) awaitables (plain fut
         'assertion was evaluated or a failure was delivered')
 RULE += ('; also: completions while paused, registering steps inside if/elif/else/while bodies, one item under two keys, mapping results on re-assigned keys, a registering step that runs another process to completion (nested execute, re-entrant loop policy)')
 ASSUMPTIONS = ['pause/play: the workchain paused while the items complete, then played (finer interleavings are C06)', 'children are processes that wait for the harness (so completion is controlled)']
-REQUIRED = ['barrier_checks', 'ctx_checks', 'failures/exc', 'failures/killed', 'failures/cancel', 'kinds/fut', 'kinds/child', 'kinds/oldchild', 'how/ret', 'how/call', 'how/wait', 'how/wait-fut', 'terminated_before_registration', 'failure_while_paused', 'nested_runs', 'nested_barrier_checks', 'nested_registered_before_inner_run', 'unprintable_failures', 'uncopyable_results', 'exception_objects_as_results', 'reserved_name_keys', 'failure_callback_races', 'equal_children_runs', 'falsy_results']
+REQUIRED = ['barrier_checks', 'ctx_checks', 'failures/exc', 'failures/killed', 'failures/cancel', 'kinds/fut', 'kinds/child', 'kinds/oldchild', 'how/ret', 'how/call', 'how/wait', 'how/wait-fut', 'terminated_before_registration', 'failure_while_paused', 'nested_runs', 'nested_barrier_checks', 'nested_registered_before_inner_run', 'unprintable_failures', 'uncopyable_results', 'none_results', 'exception_objects_as_results', 'reserved_name_keys', 'failure_callback_races', 'failures_with_a_withdrawn_kill', 'equal_children_runs', 'falsy_results']
 BOUNDS = {'quick': 'n<=3 awaitables, all completion orders, placements sampled on a grid', 'thorough': 'n<=4, all placements'}
 
 
@@ -111,7 +111,7 @@ def gen_cases(tier, seed):
                     # (where a key is assigned again by a later step the results are mappings with different keys, like the outputs
                     # of two different children: the later result replaces the earlier one, it is not merged into it)
                     # (some results are objects that cannot be copied, some errors are falsy or have no printable form)
-                    val = ['value', {'r%d' % idx: idx} if name.startswith('reassign') else rng.choice(['@NOCOPY', '@NOCOPY', '@EXCVAL', '@EXCVAL', 0, '', [], 'v%d' % idx, 'v%d' % idx, 'v%d' % idx, 'v%d' % idx])] if spec[0] == 'value' else (
+                    val = ['value', {'r%d' % idx: idx} if name.startswith('reassign') else rng.choice(['@NOCOPY', '@NOCOPY', '@EXCVAL', '@EXCVAL', None, None, 0, '', [], 'v%d' % idx, 'v%d' % idx, 'v%d' % idx, 'v%d' % idx])] if spec[0] == 'value' else (
                         ['exc', rng.choice(['falsy-e%d', 'falsy-e%d', 'unprintable-e%d', 'unprintable-e%d', 'e%d', 'e%d', 'e%d']) % idx] if spec[0] == 'exc' else ['cancel'])
                     acts.append(['complete', idx, val])
                 else:
@@ -151,6 +151,14 @@ def gen_cases(tier, seed):
                 for order in (0, 1):
                     pair = [{'at': s0, 'act': fail_act}, {'at': s0, 'act': ['soon_raise', 'cb-fails']}]
                     race_cases.append({'name': name, 'program': prog, 'plan': pair if order == 0 else pair[::-1], 'drain': True, 'listener': False, 'race': True})
+        # ... or a kill of the work chain is requested and withdrawn again by its requester, all in that same loop iteration (the kill
+        # is only pending then): the failure counts like any other, the chain does not go on
+        for (idx, kind) in items[:2]:
+            fail_act = ['complete', idx, ['exc', 'e%d' % idx]] if kind == 'fut' else ['child', idx, 'fail']
+            for s0 in range(1, nslots + 1, 2):
+                rest = [{'at': 'q', 'act': (['complete', i2, ['value', 'v%d' % i2]] if k2 == 'fut' else ['child', i2, 'resume'])} for i2, k2 in items if i2 != idx]
+                race_cases.append({'name': name, 'program': prog, 'drain': True, 'listener': False, 'withdrawn_kill': True,
+                                   'plan': [{'at': s0, 'act': fail_act}, {'at': s0, 'act': ['kill', 'wk']}, {'at': s0, 'act': ['cancel_ret', 'kill']}] + rest})
         if len(race_cases) > 40:
             race_cases = rng.sample(race_cases, 40)
         paused_cases += race_cases
@@ -208,6 +216,7 @@ def run_case(case):
             obs['ctx_checks'] += len(e[5])
     obs['equal_children_runs'] = int(bool(case['program'].get('equal_children')))
     obs['failure_callback_races'] = int(bool(case.get('race')))
+    obs['failures_with_a_withdrawn_kill'] = int(bool(case.get('withdrawn_kill')))
     paused_at_completion = any(a['kind'] in ('complete', 'child') and a.get('paused_before') for a in rec['acts'])
     for c in rec['extra']['completions']:
         if c[1][0] in ('exc', 'cancel', 'killed') and paused_at_completion:
@@ -218,6 +227,8 @@ def run_case(case):
             obs['unprintable_failures'] = obs.get('unprintable_failures', 0) + 1
         if c[1][0] == 'value' and len(c[1]) > 1 and c[1][1] in (0, '', []):
             obs['falsy_results'] = obs.get('falsy_results', 0) + 1
+        if c[1][0] == 'value' and len(c[1]) > 1 and c[1][1] is None:
+            obs['none_results'] = obs.get('none_results', 0) + 1
         if c[1][0] == 'value' and len(c[1]) > 1 and c[1][1] == '@EXCVAL':
             obs['exception_objects_as_results'] = obs.get('exception_objects_as_results', 0) + 1  # (a result, not a failure)
         if c[1][0] == 'value' and len(c[1]) > 1 and c[1][1] == '@NOCOPY':
